@@ -34,14 +34,31 @@ def run(lines, out, args):
                     twin_of = ifs[int(f[2])]
                     f = ["iface", f[1], "-"] + f[3:]
                 attrs = {}
+                funcs = {}
+                bases_t = tuple(ifs[int(b)] for b in lst(f[2])) or (Interface,)
                 for e in lst(f[3]):
                     n, d = e.split(":")
-                    a = Attribute("d" + d)
-                    descs[id(a)] = int(d)
+                    if d == "R":
+                        # the re-export idiom `x = Base["x"]`: the very description object the bases resolve the name to is
+                        # listed again, as a DIRECT definition of the new interface (nothing, when the bases do not have the name)
+                        a = InterfaceClass("tmp", bases_t, {}, __module__="zi.gen").get(n)
+                        if a is None:
+                            continue
+                    elif int(d) % 3 == 0:
+                        # a method written as a plain function without a docstring (it becomes a Method description)
+                        ns = {}
+                        exec("def %s(self, a=1): pass" % n, ns)
+                        a = ns[n]
+                        funcs[n] = int(d)
+                    else:
+                        a = Attribute("d" + d)
+                        descs[id(a)] = int(d)
                     attrs[n] = a
                     if n not in names:
                         names.append(n)
-                I = InterfaceClass(twin_of.__name__ if twin_of is not None else "I%d_%s" % (serial, f[1]), tuple(ifs[int(b)] for b in lst(f[2])) or (Interface,), attrs, __module__="zi.gen")
+                I = InterfaceClass(twin_of.__name__ if twin_of is not None else "I%d_%s" % (serial, f[1]), bases_t, attrs, __module__="zi.gen")
+                for n, d in funcs.items():
+                    descs[id(I.direct(n))] = d
                 for e in lst(f[4]):
                     t, v = e.split(":")
                     I.setTaggedValue(t, None if int(v) == 999 else int(v))      # 999 stands for a tag whose value is None
